@@ -522,7 +522,15 @@ func main() {
 	model := flag.String("model", "", "path of the extracted model binary (empty: implementation only)")
 	shards := flag.Int("shards", runtime.NumCPU(), "parallel model processes")
 	tmo := flag.Int("timeout_ms", 5000, "per-evaluation watchdog")
+	tables := flag.String("tables", "", "regenerate coq/Gen/*.v into this directory and exit")
 	flag.Parse()
+	if *tables != "" {
+		if err := writeTables(*tables); err != nil {
+			fmt.Fprintln(os.Stderr, err)
+			os.Exit(1)
+		}
+		return
+	}
 	evalTimeout = time.Duration(*tmo) * time.Millisecond
 
 	f, err := os.Open(*in)
